@@ -7,6 +7,9 @@
 #include <sched.h>
 #include <fcntl.h>
 #include <sys/file.h>
+#include <sys/resource.h>
+#include <sys/stat.h>
+#include <signal.h>
 
 static void usage() {
     fprintf(stderr, "usage: simx <C12|C13|C20> batch|replay [options]\n");
@@ -63,7 +66,24 @@ int main(int argc, char **argv) {
         for (int i = 0; i < 25; i++) huge += "/opt/verif/some/long/path/element-" + std::to_string(i) + ":";
         setenv("VERIF_ENV_HUGE", huge.c_str(), 1); // ~900 bytes: beyond any small stack buffer
     }
-    setenv("TMPDIR", "/tmp", 1);
+    {
+        // temporary files the library creates go to a scratch directory next to the binary (the driver empties it), and no
+        // file this process writes may grow beyond 64 MB: a changed library that fails to remove its temporary files, or
+        // writes without end, must not fill /tmp or the disk
+        char exe[4096];
+        ssize_t n = readlink("/proc/self/exe", exe, sizeof exe - 1);
+        std::string dir = "/tmp";
+        if (n > 0) {
+            exe[n] = 0;
+            std::string e(exe);
+            size_t sl = e.rfind('/');
+            if (sl != std::string::npos) { dir = e.substr(0, sl) + "/simtmp"; mkdir(dir.c_str(), 0777); }
+        }
+        setenv("TMPDIR", dir.c_str(), 1);
+        struct rlimit rl = {64u << 20, 64u << 20};
+        setrlimit(RLIMIT_FSIZE, &rl);
+        signal(SIGXFSZ, SIG_IGN);
+    }
     setvbuf(stdout, nullptr, _IOLBF, 0);
     if (a.mode == "batch") {
         // all threads of a worker on one CPU: the baton hand-off is then a plain context switch. CPUs are claimed
